@@ -20,7 +20,8 @@ def side_table_exchange(t):
     g = " ".join(t.get("generics", []))
     # a list of attachments, or a newtype around one (`ReceivedHandles<OsOpaqueIpcChannel>`): recognised by the element type;
     # whether the operand is a per-thread table is decided separately (cell_key: reached through RefCell::borrow_mut / a RefCell)
-    if any(e in g for e in SIDE_ELEMS) and ("Vec<" in g or "<" in g):
+    g0 = (t.get("generics") or [""])[0]
+    if any(e in g for e in SIDE_ELEMS) and ("Vec<" in g or ("<" in g0 and not g0.startswith("std::") and not g0.startswith("core::") and not g0.startswith("alloc::"))):
         return _CANON.get(name, name)
     return None
 
